@@ -1,4 +1,4 @@
 From Coq Require Import ExtrOcamlBasic NArith.
 From LLRP Require Import Client.Stream Client.Hostile.
 Extraction Language OCaml.
-Extraction "model.ml" serve st0 frame_bytes check_initial caller_handed.
+Extraction "model.ml" serve st0 frame_bytes check_initial caller_handed serve_stall.
